@@ -64,6 +64,8 @@ JsFor(A) == LET R(d) == IF A.a + d <= Turn THEN A.a + d ELSE A.a + d - Turn     
                                    \cup {[a |-> R(d) + Turn, len |-> n] : d \in {x \in D : R(x) <= 0}, n \in JLens}
                      ELSE {})
 
+OJsFor(A) == {J \in JsFor(A) : J.len \in {0, 6, 13, 23}}          \* second intervals for the (both-readings) overlaps query
+
 (* ---- laws as invariants: all arguments ---- *)
 IsP == iv.k = "plain"
 IsA == iv.k = "angle"
@@ -161,9 +163,10 @@ Emit ==
   ELSE PrintT(<<"CASE", ToJson([kind |-> "angle", a |-> iv.a, len |-> iv.len,
                                  ths |-> -ThMax..ThMax, shifts |-> Shifts,
                                  js |-> {<<J.a, J.len>> : J \in JsFor(AI)},
+                                 ojs |-> {<<J.a, J.len>> : J \in OJsFor(AI)},
                                  sets |-> ASets(AI),
                                  \* size of the EITHER bands among the arguments of this case (summed up in the evidence)
                                  either |-> [angle_contains |-> Cardinality({th \in -ThMax..ThMax : ExpAngleContains(AI, 2 * th) = "EITHER"}),
                                              angle_contains_interval |-> Cardinality({J \in JsFor(AI) : ExpAngleContainsInterval(AI, J) = "EITHER"}),
-                                             angle_overlaps |-> Cardinality({J \in JsFor(AI) : ExpAngleOverlaps(AI, J) = "EITHER"})]])>>)
+                                             angle_overlaps |-> Cardinality({J \in OJsFor(AI) : ExpAngleOverlaps(AI, J) = "EITHER"})]])>>)
 =================================================================================
